@@ -931,6 +931,18 @@ def nack_insert_sessions(g, n, sidp, per=90):
                 adds.append(adds.pop(r.randrange(0, j)))       # ascending, then one from the front part last
                 if r.random() < 0.5:
                     adds.append((adds[-2] + r.randrange(1, 20)) % 65536)   # ... and then a new maximum
+            if mode > 0.7:
+                # a late insertion that becomes the base of a word and pushes the tail of the next word out of it:
+                # a, a+k | y, z  ->  a, a+k | x, y | z   (x between a+k and y, more than 16 behind a; z - x > 16 >= z - y)
+                a = base
+                x = a + r.randrange(17, 25)
+                y = x + r.randrange(1, 9)
+                z = y + r.randrange(max(1, 17 - (y - x)), 17)
+                adds = [v % 65536 for v in (a, a + r.randrange(1, 17), y, z)]
+                if r.random() < 0.5:
+                    adds.append((z + r.randrange(1, 40)) % 65536)
+                r.shuffle(adds)
+                adds.append(x % 65536)
             fci = {"f": "nack", "adds": adds}
             if r.random() < 0.7:
                 fci["probes"] = list(range(len(adds) + 1)) if r.random() < 0.5 else sorted(r.sample(range(len(adds) + 1), 2))
